@@ -98,6 +98,14 @@ class RefV:
         self.place = place
 
 
+class Poison:
+    """a value that could not be merged at a control-flow join; any later use makes the obligation inconclusive"""
+    __slots__ = ("why",)
+
+    def __init__(self, why):
+        self.why = why
+
+
 class OpaqueV:
     """strings, fn items, ZSTs we never look into"""
     __slots__ = ("what",)
@@ -130,6 +138,11 @@ def ite_val(c, a, b):
         return BoolV(z3.If(c, a.e, b.e))
     if isinstance(a, Agg) and isinstance(b, Agg) and len(a.fields) == len(b.fields):
         return Agg(a.kind, a.name, [ite_val(c, x, y) for x, y in zip(a.fields, b.fields)])
+    if isinstance(a, Agg) and isinstance(b, Agg) and a.kind == "struct" and a.name == b.name == "NaiveDate":
+        # one side carries specification-only ghost fields (year, ordinal): keep only the real field
+        return Agg(a.kind, a.name, [ite_val(c, a.fields[0], b.fields[0])])
+    if isinstance(a, Poison) or isinstance(b, Poison):
+        return a if isinstance(a, Poison) else b
     if isinstance(a, EnumV) and isinstance(b, EnumV):
         pl = {}
         for k in set(a.payload) | set(b.payload):
@@ -430,6 +443,8 @@ class Executor:
         self.summaries = {}  # short function name -> fn(executor, state, args) -> (state, value): proved contract used instead of the body
         self.summarized = set()
         self.raw_summaries = []  # (regex on callee text, fn(executor, state, args))
+        self.unreachables = []  # (path condition, function) of `unreachable` blocks we arrived at: must all be infeasible
+        self.const_overrides = {}  # constant text -> value (models of std constants such as UNIX_EPOCH)
 
     # -- helpers -------------------------------------------------------------------------------
     def fresh(self, prefix, sort="Int"):
@@ -477,6 +492,8 @@ class Executor:
     # -- constants -----------------------------------------------------------------------------
     def const_value(self, text, hint_ty=None):
         t = text.strip()
+        if t in self.const_overrides:
+            return self.const_overrides[t]
         if t == "true":
             return BoolV(True)
         if t == "false":
@@ -485,6 +502,11 @@ class Executor:
         if m:
             return IntV(int(m.group(1)), m.group(2))
         if t.startswith('"') or t.startswith("b\""):
+            return OpaqueV(t)
+        if len(t) >= 3 and t[0] == "'" and t[-1] == "'":
+            body = t[1:-1]
+            if len(body) == 1:
+                return IntV(ord(body), "u32")     # a char constant (as its scalar value)
             return OpaqueV(t)
         if t == "()":
             return UNIT
@@ -520,7 +542,7 @@ class Executor:
         raise Unsupported(f"constant {t!r}")
 
     def enum_const(self, t):
-        segs = split_path(t)
+        segs = [s_ for s_ in split_path(t) if not s_.startswith("<")]
         if len(segs) < 2:
             return None
         en, var = segs[-2], segs[-1]
@@ -609,6 +631,8 @@ class Executor:
             key = (frame, place[1])
             if key not in st.mem:
                 raise Unsupported(f"read of uninitialised local {place[1]}")
+            if isinstance(st.mem[key], Poison):
+                raise Unsupported(f"read of {place[1]} whose value could not be merged at a join: {st.mem[key].why}")
             return st.mem[key]
         if k == "field":
             base = self.read_place(st, frame, place[1])
@@ -967,6 +991,17 @@ class Executor:
             return r
         f, env = self.resolve(callee, args)
         if f is None:
+            q = split_qualified(callee)
+            if q and _base(q[1]) == "PartialOrd" and q[2] in ("lt", "le", "gt", "ge"):
+                # provided comparison methods of PartialOrd: defined by core in terms of the impl's partial_cmp
+                pc_callee = callee[:callee.rindex("::")] + "::partial_cmp"
+                st2, r = self.call(st, frame, pc_callee, args)
+                if st2 is None:
+                    return None, None
+                o_ = r.payload[1][0].disc
+                some = r.disc == 1
+                res = {"lt": o_ < 0, "le": o_ <= 0, "gt": o_ > 0, "ge": o_ >= 0}[q[2]]
+                return st2, BoolV(z3.And(some, res))
             raise Unsupported(f"call to {callee!r} (no body / not modelled)")
         short = re.sub(r"<impl at [^>]*>::", "", f.name)
         if short in self.summaries:
@@ -1040,7 +1075,8 @@ class Executor:
             if owner.startswith("<") and len(segs) >= 3:
                 owner_generics = split_top(owner[1:-1])
                 owner = segs[-3]
-            cands = p.inherent.get((_base(owner), meth), [])
+            ALIASES = {"LocalResult": "MappedLocalTime"}   # `pub type LocalResult<T> = MappedLocalTime<T>`
+            cands = p.inherent.get((ALIASES.get(_base(owner), _base(owner)), meth), [])
             if len(cands) > 1:
                 # several inherent impl blocks: choose by arity
                 cands = [c for c in cands if len(c[0].params) == len(args)] or cands
@@ -1101,6 +1137,20 @@ class Executor:
         if m:
             return self.result_method(st, m.group(2), args, c)
         m = split_qualified(c)
+        if m and _base(m[1]) in ("FnOnce", "FnMut", "Fn") and m[2] in ("call_once", "call_mut", "call"):
+            # a closure value called through the Fn* traits: run the closure's own MIR body
+            clo = args[0]
+            cv = self.load(st, clo)
+            if isinstance(cv, Agg) and str(cv.name).startswith("{closure@") and cv.name in self.p.closures:
+                f = self.p.closures[cv.name]
+                tup = args[1]
+                call_args = list(tup.fields) if isinstance(tup, Agg) else [tup]
+                first_ty = f.params[0][1] if f.params else ""
+                recv = clo if first_ty.startswith("&") else cv
+                if first_ty.startswith("&") and not isinstance(clo, (RefV, ConstRef)):
+                    recv = ConstRef(cv)
+                return self.exec_fn(f, [recv] + call_args, st)
+            raise Unsupported(f"call of a closure that is not a known closure value: {c}")
         if m:
             selfty, trait, meth = m
             tb = _base(trait)
@@ -1164,6 +1214,8 @@ class Executor:
             old = self.load(st, args[0])
             self.write_place(st, args[0].frame, args[0].place, args[1])
             return st, old
+        if re.search(r"(^|::)Arguments::<'_>::(from_str|new_const|new_v1)", c):
+            return st, OpaqueV("fmt::Arguments")
         if re.fullmatch(r"(?:core|std)::hint::unreachable_unchecked|(?:core|std)::intrinsics::unreachable", c):
             return None, None
         if re.fullmatch(r"(?:core|std)::hint::assert_unchecked|(?:core|std)::intrinsics::assume", c):
@@ -1416,6 +1468,11 @@ class Executor:
             return
         if k == "assign":
             v = self.rvalue(st, frame, s[2])
+            if s[2][0] == "discriminant" and s[1][0] == "local" and isinstance(v, IntV):
+                # the discriminant has the destination's declared integer type (e.g. i8 for Ordering: -1 is switched on as 255)
+                ty = f.locals.get(s[1][1])
+                if ty in INT_TYPES:
+                    v = IntV(v.e, ty)
             self.write_place(st, frame, s[1], v)
             return
         if k == "setdisc":
@@ -1429,7 +1486,8 @@ class Executor:
         elif k == "return":
             ret_states.append((st, None))
         elif k == "unreachable":
-            pass
+            # rustc proved this block unreachable; if our path condition for it is satisfiable the *model* is wrong
+            self.unreachables.append((st.pc, f.name))
         elif k == "panic":
             self.panics.append((st.pc, t[1], f.name))
         elif k == "switch":
@@ -1587,8 +1645,8 @@ def merge_states(states):
             else:
                 try:
                     mem[k] = ite_val(s.pc, b, a)
-                except Unsupported:
-                    # a temporary that is dead at the join: drop it (a later read reports uninitialised)
-                    continue
+                except Unsupported as e:
+                    # possibly a temporary that is dead at the join; if it is ever read the obligation is inconclusive
+                    mem[k] = Poison(str(e))
         acc = State(z3.Or(acc.pc, s.pc), mem)
     return acc
